@@ -131,8 +131,7 @@ func checkItem(c *ev.Ctx, r *rand.Rand, it *docs.Item, wmin int) {
 			return
 		}
 		if w < wmin {
-			// the effective width of some nested block is < 1 here: content may be dropped by
-			// word-wrapping at width 0 (outside C13's and this statement's range); crash check only
+			// the body (or an attachment name) is rendered at a width < 1 here; crash check only
 			c.Count("renders_degenerate_width", 1)
 			continue
 		}
@@ -178,8 +177,13 @@ func TestVerifC12(t *testing.T) {
 				continue
 			}
 			c.Count("markup:"+doc.Markup, 1)
-			// post/actor bodies are rendered at width-4, attachment names at width-6
-			checkItem(c, r, it, 7+doc.MaxIndent)
+			// post/actor bodies are rendered at width-4, attachment names at width-6; below one column
+			// word-wrapping at width <= 0 drops content (outside C13's and this statement's range)
+			wmin := 5
+			if len(attLinks) > 0 {
+				wmin = 7
+			}
+			checkItem(c, r, it, wmin)
 			if j == i {
 				c.Sample(caseDesc{Kind: it.Kind, Markup: it.Markup, JSON: ev.Trunc(it.Raw, 500), Links: it.Links})
 			}
